@@ -17,7 +17,7 @@ from props import C03 as T
 
 PID = 'C01'
 HARNESS = 'h_c01'
-HARNESS_EXTRA = ('c01_read.h', 'rec.h')
+HARNESS_EXTRA = ('c01_read.h', 'rec.h', 'reuse.h')
 MODEL_MODULE = 'V.C01.Model'
 SIZES = [4096, 16, 32, 67]
 VARIANTS = {('N%d' % n): ({} if n == 4096 else {'POTASSCO_VERIF_BUF_SIZE': n}) for n in SIZES}
@@ -42,12 +42,13 @@ def program_of(c):
 
 
 def describe(c):
+    rd = T.REUSED if T.primed(c) else 'fresh'    # harness/reuse.h: every other case reads with a reader object used before
     if c[0] < 2:
         p = program_of(c)
         s = C.pretty(p)
-        return 'mode=%s N=%d program=[%s]' % ('complete' if c[0] == 0 else 'incremental', c[1], s[:900] + ('...' if len(s) > 900 else ''))
+        return 'mode=%s N=%d reader=%s program=[%s]' % ('complete' if c[0] == 0 else 'incremental', c[1], rd, s[:900] + ('...' if len(s) > 900 else ''))
     t = bytes(x & 255 for x in c[3:3 + c[2]])
-    return 'reread mode=%s N=%d text=%r' % ('complete' if c[0] == 2 else 'incremental', c[1], t[:400])
+    return 'reread mode=%s N=%d reader=%s text=%r' % ('complete' if c[0] == 2 else 'incremental', c[1], rd, t[:400])
 
 
 def wf_program(p):
